@@ -431,6 +431,12 @@ def show(e, sym=None):
     return str(e)
 
 
+_INDEX_CALL = re.compile(r"(as core::ops::index::Index<usize>>::index$|<impl core::ops::index::Index<usize> for .*>::index$)")
+FIRST_CALLS = {
+    "syn::punctuated::Punctuated::<T, P>::first": "syn::punctuated::Punctuated::<T, P>::len",
+    "core::slice::<impl [T]>::first": "core::slice::<impl [T]>::len",
+}
+
 UNWRAPS = {
     "core::option::Option::<T>::unwrap": "Some", "core::option::Option::<T>::expect": "Some",
     "core::result::Result::<T, E>::unwrap": "Ok", "core::result::Result::<T, E>::expect": "Ok",
@@ -445,6 +451,15 @@ def strip_transparent(e):
         return e
     if e[0] == "call" and not isinstance(e[1], tuple) and e[1] in UNWRAPS and len(e[2]) >= 1:
         return ("field", ("variant", strip_transparent(e[2][0]), UNWRAPS[e[1]]), "0")
+    # `x[n]` through an Index impl with a constant index, and `x.first().unwrap()` / the payload of
+    # `Some(first)` from `x.first()`, are the element `x[n]` / `x[0]`
+    if e[0] == "call" and isinstance(e[1], str) and _INDEX_CALL.search(e[1]) and len(e[2]) == 2:
+        ci = _const_int(e[2][1])
+        if ci is not None:
+            return ("index", strip_transparent(e[2][0]), ci)
+    if e[0] == "field" and e[2] == "0" and e[1][0] == "variant" and e[1][2] == "Some" and e[1][1][0] == "call" \
+            and isinstance(e[1][1][1], str) and e[1][1][1] in FIRST_CALLS and e[1][1][2]:
+        return ("index", strip_transparent(e[1][1][2][0]), 0)
     # the value of `x?` on the continuing path is the Ok / Some payload of x
     if e[0] == "field" and e[2] == "0" and e[1][0] == "variant" and e[1][2] == "Continue" and e[1][1][0] == "call" \
             and isinstance(e[1][1][1], str) and e[1][1][1].endswith("Try>::branch") and e[1][1][2]:
@@ -506,6 +521,10 @@ def normalise_atom(expr, value):
                 expr = ("call", "core::result::Result::<T, E>::is_ok", expr[2], expr[3] if len(expr) > 3 else ())
                 value = not value
                 continue
+            if c == "core::option::Option::<T>::is_some" and isinstance(value, bool) and expr[2] and expr[2][0][0] == "call" and expr[2][0][1] in FIRST_CALLS:
+                # `x.first().is_some()` is `x.len() != 0`
+                inner = expr[2][0]
+                return ("call", FIRST_CALLS[inner[1]], inner[2], ()), (("not-in", (0,)) if value else 0)
             if c in IS_EMPTY and isinstance(value, bool):
                 # `x.is_empty()` / `x.len() == 0` / `match x.len() { 0 => .. }` are one test
                 return ("call", IS_EMPTY[c], expr[2], ()), (0 if value else ("not-in", (0,)))
